@@ -41,6 +41,8 @@ func main() {
 	evdir := flag.String("evidence", "/verif/evidence", "evidence directory")
 	knownPath := flag.String("known", "/verif/known_findings.json", "known findings file (read-only)")
 	dump := flag.String("dump", "", "debug: dump (tables|prov|sinks)")
+	goosFlag := flag.String("goos", "", "analyse the package as built for this GOOS (thorough-tier configuration sweep)")
+	noTag := flag.Bool("notag", false, "analyse without the hook build tag")
 	flag.Parse()
 	if *prop == "" {
 		fmt.Println("usage: anonverif -prop Cnn [-tier quick|thorough]")
@@ -73,7 +75,11 @@ func main() {
 		os.Exit(2)
 	}
 	t0 := time.Now()
-	ctx, lerr := LoadRepo(*repo, *tier, []string{"verif"}, "")
+	tags := []string{"verif"}
+	if *noTag {
+		tags = nil
+	}
+	ctx, lerr := LoadRepo(*repo, *tier, tags, *goosFlag)
 	if *dump != "" && lerr == nil {
 		debugDump(ctx, *dump)
 		return
